@@ -149,7 +149,8 @@ def replay_file(path, repo):
         if binp is None:
             print('witness harness did not build:', err)
             return 2
-        p = subprocess.run([binp, 'run', w.get('property', r.get('property')), json.dumps(w['history'])], capture_output=True, text=True)
+        args = [binp, 'run', w.get('property', r.get('property'))] + ([w['kind']] if w.get('kind') else []) + [json.dumps(w['history'])]
+        p = subprocess.run(args, capture_output=True, text=True)
         print(p.stdout.strip())
         return 1 if p.returncode == 1 else 0
     finally:
@@ -263,6 +264,8 @@ def main(argv):
     witness = None
     if real and not undecided:
         depth = 6 if tier == 'thorough' else 5
+        if cfg.get('witness') == 'storage':
+            depth = 5 if tier == 'thorough' else 4
         if cfg.get('witness'):
             witness = find_witness(cfg['witness'], prop, repo, depth, seed)
         for (uname, ob, diags, g) in real:
